@@ -445,6 +445,63 @@ class SyncScope(_Scope):
         st.check("canary", z3.BoolVal(False), kind="canary")
 
 
+class _ReEnter(_Scope):
+    """A scope object that was entered before (left since, or still active: re-entered from inside its own block) is refused
+    when entered again, and the refusal happens before anything changed: the surrounding code keeps its state, metrics scope
+    and task group (C02), no task group is left installed for later spawns (C06) and no disposable is entered again (C08).
+    The history is imposed on the object built by the real `__init__`: its task group(s) have been entered (T-TG: single
+    use), its metrics are finished / its tokens are taken."""
+
+    def run(self, it):
+        st = it.st
+        st.contract = self
+        it.engine.repo.find(self.file, self.func)
+        self.build(it)
+        g = st.ghost
+        metrics = st.get(self.mc, "_metrics")
+        groups = list(g.get("$taskgroups", []))
+        token = st.sym_ref("token_of_the_first_entering", "Token")
+        if st.fork("history", [("used-and-left", True), ("still-active(re-entered-from-inside)", True)]) == 0:
+            st.put(metrics, "_finished", it.mk_bool(True))
+            for tg in groups:
+                st.put(tg, "$tg_entered", it.mk_bool(True))
+                st.put(tg, "$tg_exited", it.mk_bool(True))
+        else:
+            st.put(self.mc, "_token", token)
+            for tg in groups:
+                st.put(tg, "$tg_entered", it.mk_bool(True))
+            tgc = st.get(self.obj, "_task_group_context")
+            if it.kind(tgc) == "ref" and self.is_async:      # (a tree that builds it later has nothing to mark here)
+                st.put(tgc, "_token", token)
+        n_groups = len(groups)
+        try:
+            it.run_function(method(it, self.sinfo, self.obj, "__aenter__" if self.is_async else "__enter__"), CallArgs())
+        except PyRaise as pr:
+            st.labels.append("re-enter:refused")
+            self.vars_restored(it, "P5:re-entering-a-used-scope-object-is-refused-before-anything-changes")
+            st.check("C08-P5:re-entering-a-used-scope-object-enters-no-disposable-again", z3.BoolVal(g.get("disp_entered", 0) == 0))
+            new = [tg for tg in g.get("$taskgroups", [])[n_groups:]]
+            st.check("C06-P5:re-entering-a-used-scope-object-leaves-no-new-task-group-entered",
+                     z3.And([z3.Implies(V.bval(st.get(tg, "$tg_entered")), V.bval(st.get(tg, "$tg_exited"))) for tg in new])
+                     if new else z3.BoolVal(True))
+            st.check("C06-P5:re-entering-a-used-scope-object-leaves-the-task-group-variable-alone",
+                     cv_same(it, self.cv["TaskGroupContext"], self.snap0["TaskGroupContext"]))
+            st.check("canary", z3.BoolVal(False), kind="canary")
+            return
+        st.labels.append("re-enter:accepted")
+        st.check("C02-P5:a-scope-object-is-entered-at-most-once(entering-it-again-is-refused)", z3.BoolVal(False))
+        st.check("canary", z3.BoolVal(False), kind="canary")
+
+
+class ReEnterAsync(_ReEnter):
+    file, func, name = ACCESS, "ScopeContext.__aenter__", "C02/access:ScopeContext.__aenter__(re-entering)"
+
+
+class ReEnterSync(_ReEnter):
+    file, func, name = ACCESS, "ScopeContext.__enter__", "C02/access:ScopeContext.__enter__(re-entering)"
+    is_async = False
+
+
 class StateBlock(_Scope):
     """`with ctx.updated(...)`: StateContext.__enter__ / __exit__ around an abstracted body."""
     file, func, name = "context/state.py", "StateContext.__exit__", "C02/state:StateContext.__enter__+__exit__"
@@ -527,7 +584,8 @@ def variant(base, prop: str, prefixes):
 
 C02_PREFIX = ("C02-",)
 CONTRACTS = [variant(AsyncScope, "C02", C02_PREFIX), variant(SyncScope, "C02", C02_PREFIX),
-             variant(StateBlock, "C02", C02_PREFIX), variant(TaskGroupExit, "C02", C02_PREFIX)]
+             variant(StateBlock, "C02", C02_PREFIX), variant(TaskGroupExit, "C02", C02_PREFIX),
+             variant(ReEnterAsync, "C02", C02_PREFIX), variant(ReEnterSync, "C02", C02_PREFIX)]
 
 
 def extra_contracts():
